@@ -8,12 +8,22 @@ use serde_json::{json, Value};
 pub struct StepOut<T> { pub panic: bool, pub rm: Option<Matrix<T>>, pub rv: Option<Vector<T>>, pub ri: Option<i64>, pub units: Option<i64> }
 impl<T> StepOut<T> { fn none() -> Self { StepOut { panic: false, rm: None, rv: None, ri: None, units: None } } }
 
-fn arg_mat<T: Elem>(op: &Value) -> Matrix<T> { mat_from::<T>(&op["b"], if T::CX { op.get("bi") } else { None }) }
-fn arg_vec<T: Elem>(op: &Value) -> Vector<T> { vec_from::<T>(&op["v"], if T::CX { op.get("vi") } else { None }) }
-fn arg_x<T: Elem>(op: &Value, k: &str) -> T { let ki = format!("{}i", k); T::from_ri(geti(op, k), if T::CX { op.get(&ki).and_then(|v| v.as_i64()).unwrap_or(0) } else { 0 }) }
+fn arg_mat<T: ElemBase>(op: &Value) -> Matrix<T> { mat_from::<T>(&op["b"], if T::CX { op.get("bi") } else { None }) }
+fn arg_vec<T: ElemBase>(op: &Value) -> Vector<T> { vec_from::<T>(&op["v"], if T::CX { op.get("vi") } else { None }) }
+fn arg_x<T: ElemBase>(op: &Value, k: &str) -> T { let ki = format!("{}i", k); T::from_ri(geti(op, k), if T::CX { op.get(&ki).and_then(|v| v.as_i64()).unwrap_or(0) } else { 0 }) }
 
-/// apply one operation (by name) to the real matrix
+/// apply one operation (by name) to the real matrix (signed element types: adds negation)
 pub fn step<T: Elem>(m: &mut Matrix<T>, op: &Value) -> StepOut<T> {
+    if gets(op, "op") == "neg" {
+        let own = gets(op, "form") == "own";
+        let mut o = StepOut::none();
+        match guarded(|| if own { -(m.clone()) } else { -&*m }) { Ok(x) => o.rm = Some(x), Err(_) => o.panic = true }
+        return o;
+    }
+    step_base(m, op)
+}
+/// every operation that needs no sign (also instantiated at the unsigned integer types)
+pub fn step_base<T: ElemBase>(m: &mut Matrix<T>, op: &Value) -> StepOut<T> {
     let name = gets(op, "op").to_string();
     let own = gets(op, "form") == "own";
     let mut o = StepOut::none();
@@ -49,7 +59,6 @@ pub fn step<T: Elem>(m: &mut Matrix<T>, op: &Value) -> StepOut<T> {
             "numel" => o.ri = Some(m.numel() as i64),
             "clone" => o.rm = Some(m.clone()),
             "transpose" => o.rm = Some(m.transpose()),
-            "neg" => o.rm = Some(if own { -(m.clone()) } else { -&*m }),
             "add" => { let b = arg_mat::<T>(op); o.rm = Some(if own { m.clone() + b } else { &*m + &b }) }
             "sub" => { let b = arg_mat::<T>(op); o.rm = Some(if own { m.clone() - b } else { &*m - &b }) }
             "mul_scalar" => o.rm = Some(if own { m.clone() * arg_x::<T>(op, "s") } else { &*m * arg_x::<T>(op, "s") }),
@@ -98,7 +107,7 @@ fn step_f64(m: &Matrix<f64>, op: &Value) -> Option<StepOut<f64>> {
     Some(o)
 }
 
-fn event_for<T: Elem>(op: &Value, w: Part, pre: Option<&Value>, post: &Value, so: &StepOut<T>, cid: i64, k: usize) -> Value {
+fn event_for<T: ElemBase>(op: &Value, w: Part, pre: Option<&Value>, post: &Value, so: &StepOut<T>, cid: i64, k: usize) -> Value {
     let mut e = op.clone();
     if w == Part::Im {
         // imaginary twin: swap the imaginary arguments in
@@ -129,7 +138,8 @@ fn event_for<T: Elem>(op: &Value, w: Part, pre: Option<&Value>, post: &Value, so
 
 fn as_col(v: &Value) -> Value { json!({"r": v.as_array().unwrap().len(), "c": 1, "d": v}) }
 
-pub fn run<T: Elem>(case: &Value, out: &mut Out) {
+pub fn run<T: Elem>(case: &Value, out: &mut Out) { run_with::<T>(case, out, step::<T>) }
+pub fn run_with<T: ElemBase>(case: &Value, out: &mut Out, step: fn(&mut Matrix<T>, &Value) -> StepOut<T>) {
     let cid = geti(case, "cid");
     let mut m = mat_from::<T>(&case["init"], if T::CX { case.get("initi") } else { None });
     for (k, op) in case["ops"].as_array().unwrap().iter().enumerate() {
@@ -176,7 +186,56 @@ pub fn run<T: Elem>(case: &Value, out: &mut Out) {
 
 pub fn exec(case: &Value, out: &mut Out) {
     match gets(case, "ty") { "rat" => run::<crate::rat::Rat>(case, out), "f64" => run::<f64>(case, out), "i64" => run::<i64>(case, out), "cx" => run::<ohsl::Cmplx>(case, out),
+        "u32" => run_with::<u32>(case, out, step_base::<u32>), "f64bits" => run_bits(case, out),
         t => { eprintln!("TOOL-ERROR unknown type {}", t); std::process::exit(2) } }
+}
+
+// ------------------------------------------------------------------ f64 entrywise operations, bit for bit
+/// a general f64 from a seeded generator: random significands, decimal fractions, thirds, specials
+fn genf(rng: &mut StdRng, class: usize) -> f64 {
+    match class % 6 {
+        0 => (rng.gen_range(-999i64..=999) as f64) / 10.0,
+        1 => (rng.gen_range(-99i64..=99) as f64) / 3.0,
+        2 => rng.gen_range(-1.0f64..1.0) * (2.0f64).powi(rng.gen_range(-30..=30)),
+        3 => [0.0, -0.0, 1.0, -1.0, 0.5, 3.0, 0.1, 1e-3, 1e6, 7.0][rng.gen_range(0..10)],
+        4 => rng.gen_range(-9i64..=9) as f64,
+        _ => rng.gen_range(1.0f64..2.0) * [1.0, -1.0][rng.gen_range(0..2)],
+    }
+}
+/// bits with the sign of a zero dropped (the definition fixes the value, not the sign of a zero)
+fn zbits(x: f64) -> String { bits(if x == 0.0 { 0.0 } else { x }) }
+fn jbits(m: &Matrix<f64>) -> Value { let mut d = vec![]; for i in 0..m.rows() { for j in 0..m.cols() { d.push(Value::from(zbits(m[(i, j)]))); } } Value::from(d) }
+/// Every entrywise operator of Matrix<f64> on general (inexact) values: each result entry must be the ONE
+/// IEEE operation of the definition applied to the operand entries, bit for bit.
+pub fn run_bits(case: &Value, out: &mut Out) {
+    let cid = geti(case, "cid"); let (r, c) = (getu(case, "r"), getu(case, "c"));
+    let mut rng = rng(geti(case, "vseed") as u64, 77);
+    let class = getu(case, "class");
+    let mut a = Matrix::<f64>::new(r, c, 0.0); let mut b = Matrix::<f64>::new(r, c, 0.0);
+    for i in 0..r { for j in 0..c { a[(i, j)] = genf(&mut rng, class + i + j); b[(i, j)] = genf(&mut rng, class + 2 * i + j + 1); } }
+    let s = match getu(case, "sk") { 0 => 3.0, 1 => 10.0, 2 => 0.1, 3 => 7.0, 4 => 1.0 / 3.0, 5 => -5.0, 6 => 0.75, 7 => 1e-3, 8 => 4.0, 9 => -1.0, 10 => 1.0, _ => { let x = genf(&mut rng, class); if x == 0.0 { 1.5 } else { x } } };
+    let names = ["add", "sub", "neg", "mul_scalar", "lmul_scalar", "div_scalar", "add_assign", "sub_assign", "mul_assign", "div_assign", "add_scalar_assign", "sub_scalar_assign"];
+    for (k, name) in names.iter().enumerate() { for form in ["ref", "own"] {
+        let assign = name.ends_with("_assign");
+        if form == "own" && matches!(*name, "lmul_scalar" | "mul_assign" | "div_assign" | "add_scalar_assign" | "sub_scalar_assign") { continue; }
+        let f: fn(f64, f64, f64) -> f64 = match *name { "add" | "add_assign" => |x, y, _| x + y, "sub" | "sub_assign" => |x, y, _| x - y, "neg" => |x, _, _| -x,
+            "mul_scalar" | "lmul_scalar" | "mul_assign" => |x, _, s| x * s, "div_scalar" | "div_assign" => |x, _, s| x / s, "add_scalar_assign" => |x, _, s| x + s, _ => |x, _, s| x - s };
+        let mut want = Matrix::<f64>::new(r, c, 0.0); for i in 0..r { for j in 0..c { want[(i, j)] = f(a[(i, j)], b[(i, j)], s); } }
+        let own = form == "own";
+        let mut live = a.clone();
+        let res = guarded(|| -> Matrix<f64> { match *name {
+            "add" => if own { live.clone() + b.clone() } else { &live + &b }, "sub" => if own { live.clone() - b.clone() } else { &live - &b },
+            "neg" => if own { -(live.clone()) } else { -&live }, "mul_scalar" => if own { live.clone() * s } else { &live * s }, "lmul_scalar" => s * live.clone(),
+            "div_scalar" => if own { live.clone() / s } else { &live / s },
+            "add_assign" => { if own { live += b.clone() } else { live += &b }; live.clone() } "sub_assign" => { if own { live -= b.clone() } else { live -= &b }; live.clone() }
+            "mul_assign" => { live *= s; live.clone() } "div_assign" => { live /= s; live.clone() }
+            "add_scalar_assign" => { live += s; live.clone() } _ => { live -= s; live.clone() } } });
+        let (panic, got, gr, gc) = match &res { Ok(m) => (false, jbits(m), m.rows(), m.cols()), Err(_) => (true, json!([]), 0, 0) };
+        // the operand of a non-assigning form must be left as it was
+        let keep = assign || jbits(&live) == jbits(&a);
+        out.ev(json!({"op": "ew_bits", "name": name, "form": form, "ty": "f64", "cid": cid, "k": k, "r": r, "c": c, "gr": gr, "gc": gc, "panic": panic, "keep": keep,
+            "got": got, "want": jbits(&want), "sbits": bits(s)}));
+    } }
 }
 
 // ------------------------------------------------------------------ case generation
@@ -362,6 +421,52 @@ pub fn gen(tier: &str, seed: u64, out: &mut Out) {
         ops.push(json!({"op": "resize", "nr": 2, "nc": 3})); norms(&mut ops, &mut rng);
         push(out, json!({"ty": "f64", "init": init, "ops": ops}));
     } }
+    // (h) unsigned element type (u32): every intermediate of an operation must stay inside the element type, so the
+    //     histories keep all entries and results within 0..10^5 and any panic is a mismatch
+    for h in 0..(if quick { 40 } else { 600 }) {
+        let (r, c) = if h < 16 { (1 + h % 4, 1 + (h / 4) % 4) } else { (rng.gen_range(0..=6usize), rng.gen_range(0..=6usize)) };
+        let d: Vec<i64> = (0..r * c).map(|_| rng.gen_range(5..=14)).collect();
+        let (mut lo, mut hi, mut cr, mut cc) = (5i64, 14i64, r, c);
+        let mut ops: Vec<Value> = vec![];
+        let fm = |rng: &mut StdRng| if rng.gen_bool(0.5) { "own" } else { "ref" };
+        let matj = |rng: &mut StdRng, r: usize, c: usize, a: i64, b: i64| rand_mat_json(rng, r, c, a, b);
+        for step in 0..(if quick { 24 } else { 60 }) {
+            let pick = if step < 2 { 0 } else { rng.gen_range(0..24) };
+            match pick {
+                0 => { let s = rng.gen_range(0..=lo); ops.push(json!({"op": "sub_scalar_assign", "s": s})); lo -= s; hi -= s; }
+                1 => { let s = rng.gen_range(0..=9); ops.push(json!({"op": "add_scalar_assign", "s": s})); lo += s; hi += s; }
+                2 => { let s = rng.gen_range(0..=3); if hi * s > 50_000 { continue; } ops.push(json!({"op": "mul_assign", "s": s})); lo *= s; hi *= s; }
+                3 => { ops.push(json!({"op": "div_assign", "s": 1})); }
+                4 => { let b = matj(&mut rng, cr, cc, 0, lo.min(9)); ops.push(json!({"op": "sub_assign", "form": fm(&mut rng), "b": b})); lo -= lo.min(9); }
+                5 => { let b = matj(&mut rng, cr, cc, 0, 9); ops.push(json!({"op": "add_assign", "form": fm(&mut rng), "b": b})); hi += 9; }
+                6 => { let b = matj(&mut rng, cr, cc, 0, lo.min(9)); ops.push(json!({"op": "sub", "form": fm(&mut rng), "b": b})); }
+                7 => { let b = matj(&mut rng, cr, cc, 0, 9); ops.push(json!({"op": "add", "form": fm(&mut rng), "b": b})); }
+                8 => { let s = rng.gen_range(0..=3); ops.push(json!({"op": "mul_scalar", "form": fm(&mut rng), "s": s})); }
+                9 => { ops.push(json!({"op": "div_scalar", "form": fm(&mut rng), "s": 1})); }
+                10 => { if hi > 2_000 { continue; } let c2 = rng.gen_range(0..=4usize); let b = matj(&mut rng, cc, c2, 0, 3); ops.push(json!({"op": "matmul", "form": fm(&mut rng), "b": b})); }
+                11 => { if hi > 2_000 { continue; } ops.push(json!({"op": "matvec", "form": (["own", "ref", "method"][rng.gen_range(0..3)]), "v": rand_vec_json(&mut rng, cc, 0, 3)})); }
+                12 => { ops.push(json!({"op": "transpose_in_place"})); std::mem::swap(&mut cr, &mut cc); }
+                13 => { ops.push(json!({"op": (["transpose", "clone", "add_self", "sub_self", "rows", "cols", "numel"][rng.gen_range(0..7)])})); }
+                14 => { if cr != cc || hi > 100 { continue; } ops.push(json!({"op": "matmul_self"})); }
+                15 => { if cr == 0 { continue; } ops.push(json!({"op": "set_row", "i": rng.gen_range(0..cr), "v": rand_vec_json(&mut rng, cc, lo, lo + 3)})); hi = hi.max(lo + 3); }
+                16 => { if cc == 0 { continue; } ops.push(json!({"op": "set_col", "j": rng.gen_range(0..cc), "v": rand_vec_json(&mut rng, cr, lo, lo + 3)})); hi = hi.max(lo + 3); }
+                17 => { let x = rng.gen_range(0..=9); ops.push(json!({"op": "fill", "x": x})); lo = x; hi = x; }
+                18 => { if cr < 1 { continue; } ops.push(json!({"op": "swap_rows", "i": rng.gen_range(0..cr), "i2": rng.gen_range(0..cr)})); }
+                19 => { let (nr, nc) = (rng.gen_range(0..=6usize), rng.gen_range(0..=6usize)); ops.push(json!({"op": "resize", "nr": nr, "nc": nc})); cr = nr; cc = nc; lo = 0; }
+                20 => { if cr == 0 { continue; } ops.push(json!({"op": "delete_row", "i": rng.gen_range(0..cr)})); cr -= 1; }
+                21 => { if cr == 0 { continue; } ops.push(json!({"op": "get_row", "i": rng.gen_range(0..cr)})); }
+                22 => { if cc == 0 { continue; } ops.push(json!({"op": "get_col", "j": rng.gen_range(0..cc)})); }
+                _ => { let x = rng.gen_range(lo..=lo + 5); ops.push(json!({"op": "fill_diag", "x": x})); hi = hi.max(x); }
+            }
+        }
+        push(out, json!({"ty": "u32", "init": {"r": r, "c": c, "d": d}, "ops": ops}));
+    }
+    // (i) Matrix<f64> entrywise operators on general (inexact) values, bit for bit against the single IEEE operation
+    let nb = if quick { 60 } else { 1200 };
+    for h in 0..nb {
+        let (r, c) = if h < 25 { (h % 5, h / 5) } else { (rng.gen_range(1..=5usize), rng.gen_range(1..=5usize)) };
+        push(out, json!({"ty": "f64bits", "r": r, "c": c, "class": h % 6, "sk": h % 13, "vseed": rng.gen_range(1..1_000_000i64), "ops": []}));
+    }
     // (d) exact scalar division on multiples
     for _ in 0..(if quick { 20 } else { 200 }) {
         let ty = TYS[rng.gen_range(0..4)]; let s = [2i64, -2, 3, -3, 5, 7][rng.gen_range(0..6)];
